@@ -6,6 +6,7 @@ from .. import inputs
 from . import geom
 
 SPEC = dict(
+    technique='Lean 4 proof (skew/vex, adjoint homomorphism, Jacobians, delta maps; regenerated model) + float monitor',
     lean_modules=['SmVerif.Props.C13', 'SmVerif.Props.Structure'],
     groups=['TransformsNd', 'Transforms3d', 'Transforms2d', 'Vectors', 'Poses'],
     expected_untranslatable=('trinterp_T', 'trinterp_T_nostart'),
